@@ -923,7 +923,7 @@ pub fn calibrate_or_exit(ctx: &Ctx) {
 
 fn run(ctx: &Ctx) {
     calibrate_or_exit(ctx);
-    ctx.run_sub("roundtrip", ctx.tier.pick(20_000, 400_000), strategy, check);
+    ctx.run_sub("roundtrip", ctx.tier.pick(80_000, 800_000), strategy, check);
     let rejected = ctx.label_count("gate-rejected");
     let evaluated = ctx.label_count("evaluated");
     ctx.extra("gate", serde_json::json!({"evaluated": evaluated, "gate_rejected": rejected}));
